@@ -1,4 +1,5 @@
-(* C16: the successive-approximation converter (binary64 model) for resolutions up to 53 bits:
+(* C16: the successive-approximation converter.  The code is accumulated in exact integers (the
+   unsigned output type), the remainder/reference arithmetic is binary64.  For ALL resolutions:
    - every code lies in 0 .. 2^bits - 1, for ALL voltages (NaN and infinities included) and ALL
      reference voltages;
    - the code is non-decreasing in the voltage, for all finite voltages and finite vmax >= 0. *)
@@ -13,26 +14,11 @@ Notation rnd := (round radix2 fexp64 ZnearestE).
 
 #[local] Instance fexp64_valid'' : Valid_exp fexp64 := fexp_correct 53 1024 _.
 
-(* ---------------------------------------------------------------- exact integer additions *)
-
 Lemma IZR_lt_bpow_emax (z : Z) : (Z.abs z < 2 ^ 53)%Z -> Rabs (IZR z) < bpow radix2 1024.
 Proof.
   intros H. rewrite <- abs_IZR. apply Rlt_trans with (IZR (2 ^ 53)).
   - apply IZR_lt. exact H.
   - change (IZR (2 ^ 53)) with (bpow radix2 53). apply bpow_lt. lia.
-Qed.
-
-Lemma badd_exact (u v : b64) (a b : Z) :
-  is_finite u = true -> is_finite v = true -> B2R u = IZR a -> B2R v = IZR b ->
-  (Z.abs (a + b) < 2 ^ 53)%Z ->
-  is_finite (badd u v) = true /\ B2R (badd u v) = IZR (a + b).
-Proof.
-  intros Fu Fv Eu Ev H. unfold badd.
-  generalize (Bplus_correct 53 1024 _ _ mode_NE u v Fu Fv).
-  rewrite Eu, Ev, <- plus_IZR.
-  rewrite (round_generic radix2 fexp64 _ (IZR (a + b)) (format_IZR _ H)).
-  rewrite Rlt_bool_true by (apply IZR_lt_bpow_emax; exact H).
-  intros [E [F _]]. split; assumption.
 Qed.
 
 Lemma bofZ_finite_exact (z : Z) :
@@ -47,39 +33,6 @@ Proof.
   intros [_ [F _]]. exact F.
 Qed.
 
-Lemma Btrunc_IZR (r : b64) (a : Z) : B2R r = IZR a -> Btrunc r = a.
-Proof.
-  intros E. apply eq_IZR. rewrite Btrunc_correct by reflexivity. rewrite E.
-  apply round_generic; auto with typeclass_instances.
-  apply generic_format_FIX. exists (Float radix2 a 0); [|reflexivity].
-  unfold F2R. simpl. ring.
-Qed.
-
-Lemma digital_value_small (bits i : Z) :
-  (0 <= i)%Z -> (i < bits)%Z -> (bits <= 53)%Z -> digital_value bits i = (2 ^ (bits - (i + 1)))%Z.
-Proof.
-  intros H0 H1 H2. unfold digital_value, int64_wrap.
-  assert (0 < 2 ^ (bits - (i + 1)))%Z by (apply Z.pow_pos_nonneg; lia).
-  assert (2 ^ (bits - (i + 1)) <= 2 ^ 52)%Z by (apply Z.pow_le_mono_r; lia).
-  rewrite Z.mod_small; lia.
-Qed.
-
-(* ---------------------------------------------------------------- an integer shadow of the loop *)
-
-(* the same loop with the accumulator kept as an exact integer *)
-Definition zstep (bits : Z) (st : Z * b64 * b64) (i : Z) : Z * b64 * b64 :=
-  let '(a, rm, rf) := st in
-  let hit := bge rm rf in
-  (if hit then (a + 2 ^ (bits - (i + 1)))%Z else a,
-   if hit then bsub rm rf else rm,
-   bdiv rf (bofZ 2)).
-
-Fixpoint zloop (bits : Z) (n : nat) (i : Z) (st : Z * b64 * b64) : Z * b64 * b64 :=
-  match n with
-  | O => st
-  | S n' => zloop bits n' (i + 1) (zstep bits st i)
-  end.
-
 Lemma pow_split (bits i : Z) : (0 <= i)%Z -> (i < bits)%Z ->
   (2 ^ (bits - i) = 2 * 2 ^ (bits - (i + 1)))%Z.
 Proof.
@@ -87,77 +40,55 @@ Proof.
   rewrite Z.pow_succ_r by lia. reflexivity.
 Qed.
 
-Lemma sar_loop_shadow (bits : Z) (Hb : (bits <= 53)%Z) :
-  forall (n : nat) (i : Z) (s : sar_state) (a : Z),
+(* ---------------------------------------------------------------- range *)
+
+Lemma sar_loop_range (bits : Z) :
+  forall (n : nat) (i : Z) (s : sar_state),
   (0 <= i)%Z -> (i + Z.of_nat n <= bits)%Z ->
-  is_finite (acc s) = true -> B2R (acc s) = IZR a ->
-  (0 <= a)%Z -> (a + 2 ^ (bits - i) <= 2 ^ bits)%Z ->
+  (0 <= acc s)%Z -> (acc s + 2 ^ (bits - i) <= 2 ^ bits)%Z ->
   let s' := sar_loop bits n i s in
-  let '(a', rm', rf') := zloop bits n i (a, rem s, ref s) in
-  is_finite (acc s') = true /\ B2R (acc s') = IZR a' /\ rem s' = rm' /\ ref s' = rf' /\
-  (0 <= a')%Z /\ (a' + 2 ^ (bits - (i + Z.of_nat n)) <= 2 ^ bits)%Z.
+  (0 <= acc s')%Z /\ (acc s' + 2 ^ (bits - (i + Z.of_nat n)) <= 2 ^ bits)%Z.
 Proof.
-  induction n as [|n IH]; intros i s a Hi Hn Fa Ea Ha Hub.
-  - cbn [sar_loop zloop]. rewrite Z.add_0_r. tauto.
-  - cbn [sar_loop zloop]. unfold zstep at 1.
+  induction n as [|n IH]; intros i s Hi Hn Ha Hub.
+  - cbn [sar_loop]. rewrite Z.add_0_r. tauto.
+  - cbn [sar_loop].
     assert (Hi' : (i < bits)%Z) by lia.
     assert (Hp := pow_split bits i Hi Hi').
     assert (Pp : (0 < 2 ^ (bits - (i + 1)))%Z) by (apply Z.pow_pos_nonneg; lia).
-    assert (P53 : (2 ^ bits <= 2 ^ 53)%Z) by (apply Z.pow_le_mono_r; lia).
-    set (dv := (2 ^ (bits - (i + 1)))%Z) in *.
-    specialize (IH (i + 1)%Z (sar_step bits s i) (if bge (rem s) (ref s) then (a + dv)%Z else a)).
-    replace (i + 1 + Z.of_nat n)%Z with (i + Z.of_nat (S n))%Z in IH by lia.
-    unfold sar_step in IH at 2 3. cbn [rem ref] in IH.
-    apply IH; clear IH; try lia.
-    + unfold sar_step. cbn [acc]. destruct (bge (rem s) (ref s)); [|exact Fa].
-      rewrite (digital_value_small bits i Hi Hi' Hb). fold dv.
-      destruct (bofZ_finite_exact dv) as [Fd Ed]; [lia|].
-      apply (badd_exact _ _ a dv Fa Fd Ea Ed). lia.
-    + unfold sar_step. cbn [acc]. destruct (bge (rem s) (ref s)); [|exact Ea].
-      rewrite (digital_value_small bits i Hi Hi' Hb). fold dv.
-      destruct (bofZ_finite_exact dv) as [Fd Ed]; [lia|].
-      apply (badd_exact _ _ a dv Fa Fd Ea Ed). lia.
-    + destruct (bge (rem s) (ref s)); lia.
-    + destruct (bge (rem s) (ref s)); lia.
+    replace (i + Z.of_nat (S n))%Z with (i + 1 + Z.of_nat n)%Z by lia.
+    apply IH; try lia; unfold sar_step, digital_value; cbn [acc]; destruct (bge (rem s) (ref s)); lia.
 Qed.
 
-(* the final accumulator is an integer in 0 .. 2^bits - 1, whatever the voltage *)
 Theorem sar_acc_range (bits : Z) (vmax x : b64) :
-  (1 <= bits <= 53)%Z ->
-  exists a, is_finite (sar_acc bits vmax x) = true /\ B2R (sar_acc bits vmax x) = IZR a /\
-            (0 <= a <= 2 ^ bits - 1)%Z /\
-            a = fst (fst (zloop bits (Z.to_nat bits) 0 (0%Z, x, bdiv vmax (bofZ 2)))).
+  (1 <= bits)%Z -> (0 <= sar_acc bits vmax x <= 2 ^ bits - 1)%Z.
 Proof.
   intros Hb. unfold sar_acc.
-  set (s0 := {| acc := pzero; rem := x; ref := bdiv vmax (bofZ 2) |}).
-  generalize (sar_loop_shadow bits ltac:(lia) (Z.to_nat bits) 0 s0 0 ltac:(lia) ltac:(lia)
-                eq_refl eq_refl ltac:(lia) ltac:(rewrite Z.sub_0_r; lia)).
-  cbv zeta. cbn [rem ref s0].
-  destruct (zloop bits (Z.to_nat bits) 0 (0%Z, x, bdiv vmax (bofZ 2))) as [[a' rm'] rf'].
-  intros [F [E [_ [_ [H0 H1]]]]]. exists a'. cbn [fst].
-  replace (bits - (0 + Z.of_nat (Z.to_nat bits)))%Z with 0%Z in H1 by lia.
-  change (2 ^ 0)%Z with 1%Z in H1. repeat split; try assumption; lia.
+  set (s0 := {| acc := 0; rem := x; ref := bdiv vmax (bofZ 2) |}).
+  generalize (sar_loop_range bits (Z.to_nat bits) 0 s0 ltac:(lia) ltac:(lia) ltac:(cbn; lia)
+                ltac:(cbn [acc s0]; rewrite Z.sub_0_r; lia)).
+  cbv zeta. replace (bits - (0 + Z.of_nat (Z.to_nat bits)))%Z with 0%Z by lia.
+  change (2 ^ 0)%Z with 1%Z. lia.
 Qed.
 
 Theorem sar_range (w bits : Z) (vmax x : b64) c :
-  (1 <= bits <= 53)%Z -> sar_code w bits vmax x = Some c -> (0 <= c <= 2 ^ bits - 1)%Z.
+  (1 <= bits)%Z -> sar_code w bits vmax x = Some c -> (0 <= c <= 2 ^ bits - 1)%Z.
 Proof.
-  intros Hb Hc. destruct (sar_acc_range bits vmax x Hb) as [a [F [E [Ha _]]]].
-  unfold sar_code, cast_unsigned, btruncZ in Hc. rewrite (Btrunc_IZR _ a E) in Hc.
-  destruct (sar_acc bits vmax x); try discriminate;
-    (destruct ((0 <=? a)%Z && (a <? 2 ^ w)%Z); [|discriminate]); inversion Hc; subst; exact Ha.
+  intros Hb Hc. pose proof (sar_acc_range bits vmax x Hb) as Ha.
+  unfold sar_code, cast_unsigned in Hc.
+  destruct ((0 <=? sar_acc bits vmax x)%Z && (sar_acc bits vmax x <? 2 ^ w)%Z); [|discriminate].
+  inversion Hc; subst; exact Ha.
 Qed.
 
-(* the cast is defined whenever the type is wide enough *)
+(* the unsigned accumulator never wraps and the result is defined whenever the type is wide enough *)
 Theorem sar_defined (w bits : Z) (vmax x : b64) :
-  (1 <= bits <= 53)%Z -> (bits <= w)%Z -> exists c, sar_code w bits vmax x = Some c.
+  (1 <= bits)%Z -> (bits <= w)%Z -> sar_code w bits vmax x = Some (sar_acc bits vmax x).
 Proof.
-  intros Hb Hw. destruct (sar_acc_range bits vmax x Hb) as [a [F [E [Ha _]]]].
-  unfold sar_code, cast_unsigned, btruncZ. rewrite (Btrunc_IZR _ a E).
+  intros Hb Hw. pose proof (sar_acc_range bits vmax x Hb) as Ha.
+  unfold sar_code, cast_unsigned.
   assert (2 ^ bits <= 2 ^ w)%Z by (apply Z.pow_le_mono_r; lia).
-  assert (((0 <=? a)%Z && (a <? 2 ^ w)%Z) = true) as T.
+  assert (((0 <=? sar_acc bits vmax x)%Z && (sar_acc bits vmax x <? 2 ^ w)%Z) = true) as ->.
   { apply andb_true_intro. split; [apply Z.leb_le|apply Z.ltb_lt]; lia. }
-  destruct (sar_acc bits vmax x); try discriminate; rewrite T; eexists; reflexivity.
+  reflexivity.
 Qed.
 
 (* ---------------------------------------------------------------- monotonicity *)
@@ -203,25 +134,24 @@ Qed.
 
 Section SarMono.
 Variable bits : Z.
-Hypothesis Hb : (1 <= bits <= 53)%Z.
+Hypothesis Hb : (1 <= bits)%Z.
 
 (* relation between the run on x and the run on y >= x, before bit i is decided *)
-Definition rel (i : Z) (sx sy : Z * b64 * b64) : Prop :=
-  let '(ax, rx, fx) := sx in
-  let '(ay, ry, fy) := sy in
-  fx = fy /\ is_finite fx = true /\ 0 <= B2R fx /\ is_finite rx = true /\ is_finite ry = true /\
-  ((ax = ay /\ B2R rx <= B2R ry) \/ (ax + 2 ^ (bits - i) <= ay)%Z).
+Definition rel (i : Z) (sx sy : sar_state) : Prop :=
+  ref sx = ref sy /\ is_finite (ref sx) = true /\ 0 <= B2R (ref sx) /\
+  is_finite (rem sx) = true /\ is_finite (rem sy) = true /\
+  ((acc sx = acc sy /\ B2R (rem sx) <= B2R (rem sy)) \/ (acc sx + 2 ^ (bits - i) <= acc sy)%Z).
 
 Lemma rel_step (i : Z) sx sy :
-  (0 <= i)%Z -> (i < bits)%Z -> rel i sx sy -> rel (i + 1) (zstep bits sx i) (zstep bits sy i).
+  (0 <= i)%Z -> (i < bits)%Z -> rel i sx sy -> rel (i + 1) (sar_step bits sx i) (sar_step bits sy i).
 Proof.
-  intros Hi Hi'. destruct sx as [[ax rx] fx]. destruct sy as [[ay ry] fy].
+  intros Hi Hi'. destruct sx as [ax rx fx]. destruct sy as [ay ry fy]. unfold rel. cbn [acc rem ref].
   intros [Ef [Ff [Pf [Frx [Fry Hcase]]]]]. subst fy.
   assert (Hp := pow_split bits i Hi Hi').
   assert (Pp : (0 < 2 ^ (bits - (i + 1)))%Z) by (apply Z.pow_pos_nonneg; lia).
-  set (dv := (2 ^ (bits - (i + 1)))%Z) in *.
   destruct (half_ref fx Ff Pf) as [Fh Ph].
-  unfold zstep, rel. fold dv.
+  unfold sar_step, digital_value. cbn [acc rem ref].
+  set (dv := (2 ^ (bits - (i + 1)))%Z) in *.
   rewrite (bge_finite rx fx Frx Ff), (bge_finite ry fx Fry Ff).
   split; [reflexivity|]. split; [exact Fh|]. split; [exact Ph|].
   destruct (Rle_bool_spec (B2R fx) (B2R rx)) as [Hx|Hx];
@@ -243,12 +173,29 @@ Qed.
 
 Lemma rel_loop : forall (n : nat) (i : Z) sx sy,
   (0 <= i)%Z -> (i + Z.of_nat n <= bits)%Z -> rel i sx sy ->
-  rel (i + Z.of_nat n) (zloop bits n i sx) (zloop bits n i sy).
+  rel (i + Z.of_nat n) (sar_loop bits n i sx) (sar_loop bits n i sy).
 Proof.
   induction n as [|n IH]; intros i sx sy Hi Hn H.
-  - cbn [zloop]. rewrite Z.add_0_r. exact H.
-  - cbn [zloop]. replace (i + Z.of_nat (S n))%Z with (i + 1 + Z.of_nat n)%Z by lia.
+  - cbn [sar_loop]. rewrite Z.add_0_r. exact H.
+  - cbn [sar_loop]. replace (i + Z.of_nat (S n))%Z with (i + 1 + Z.of_nat n)%Z by lia.
     apply IH; try lia. apply rel_step; try lia. exact H.
+Qed.
+
+Theorem sar_acc_monotone (vmax x y : b64) :
+  is_finite vmax = true -> 0 <= B2R vmax ->
+  is_finite x = true -> is_finite y = true -> ble x y = true ->
+  (sar_acc bits vmax x <= sar_acc bits vmax y)%Z.
+Proof.
+  intros Fv Pv Fx Fy Hxy. unfold sar_acc.
+  destruct (half_ref vmax Fv Pv) as [Fh Ph].
+  set (sx := {| acc := 0; rem := x; ref := bdiv vmax (bofZ 2) |}).
+  set (sy := {| acc := 0; rem := y; ref := bdiv vmax (bofZ 2) |}).
+  assert (R0 : rel 0 sx sy).
+  { unfold rel, sx, sy. cbn [acc rem ref]. repeat split; try assumption. left. split; [reflexivity|].
+    apply ble_finite_true; assumption. }
+  generalize (rel_loop (Z.to_nat bits) 0 _ _ ltac:(lia) ltac:(lia) R0). unfold rel.
+  replace (bits - (0 + Z.of_nat (Z.to_nat bits)))%Z with 0%Z by lia. change (2 ^ 0)%Z with 1%Z.
+  intros [_ [_ [_ [_ [_ [[E _]|H]]]]]]; lia.
 Qed.
 
 Theorem sar_monotone (w : Z) (vmax x y : b64) cx cy :
@@ -257,27 +204,81 @@ Theorem sar_monotone (w : Z) (vmax x y : b64) cx cy :
   sar_code w bits vmax x = Some cx -> sar_code w bits vmax y = Some cy -> (cx <= cy)%Z.
 Proof.
   intros Fv Pv Fx Fy Hxy Hx Hy.
-  destruct (sar_acc_range bits vmax x Hb) as [ax [Fax [Eax [_ Dx]]]].
-  destruct (sar_acc_range bits vmax y Hb) as [ay [Fay [Eay [_ Dy]]]].
-  assert (cx = ax).
-  { unfold sar_code, cast_unsigned, btruncZ in Hx. rewrite (Btrunc_IZR _ ax Eax) in Hx.
-    destruct (sar_acc bits vmax x); try discriminate;
-      (destruct ((0 <=? ax)%Z && (ax <? 2 ^ w)%Z); [|discriminate]); inversion Hx; reflexivity. }
-  assert (cy = ay).
-  { unfold sar_code, cast_unsigned, btruncZ in Hy. rewrite (Btrunc_IZR _ ay Eay) in Hy.
-    destruct (sar_acc bits vmax y); try discriminate;
-      (destruct ((0 <=? ay)%Z && (ay <? 2 ^ w)%Z); [|discriminate]); inversion Hy; reflexivity. }
-  subst cx cy.
-  destruct (half_ref vmax Fv Pv) as [Fh Ph].
-  assert (R0 : rel 0 (0%Z, x, bdiv vmax (bofZ 2)) (0%Z, y, bdiv vmax (bofZ 2))).
-  { unfold rel. repeat split; try assumption. left. split; [reflexivity|].
-    apply ble_finite_true; assumption. }
-  generalize (rel_loop (Z.to_nat bits) 0 _ _ ltac:(lia) ltac:(lia) R0).
-  destruct (zloop bits (Z.to_nat bits) 0 (0%Z, x, bdiv vmax (bofZ 2))) as [[ax' rx'] fx'].
-  destruct (zloop bits (Z.to_nat bits) 0 (0%Z, y, bdiv vmax (bofZ 2))) as [[ay' ry'] fy'].
-  cbn [fst] in Dx, Dy. subst ax ay. unfold rel.
-  replace (bits - (0 + Z.of_nat (Z.to_nat bits)))%Z with 0%Z by lia. change (2 ^ 0)%Z with 1%Z.
-  intros [_ [_ [_ [_ [_ [[E _]|H]]]]]]; lia.
+  pose proof (sar_acc_monotone vmax x y Fv Pv Fx Fy Hxy) as H.
+  unfold sar_code, cast_unsigned in Hx, Hy.
+  destruct ((0 <=? sar_acc bits vmax x)%Z && (sar_acc bits vmax x <? 2 ^ w)%Z); [|discriminate].
+  destruct ((0 <=? sar_acc bits vmax y)%Z && (sar_acc bits vmax y <? 2 ^ w)%Z); [|discriminate].
+  inversion Hx; inversion Hy; subst; exact H.
 Qed.
 
 End SarMono.
+
+(* ---------------------------------------------------------------- infinite voltages *)
+
+Section SarInf.
+Variable bits : Z.
+Hypothesis Hb : (1 <= bits)%Z.
+
+Lemma sar_loop_ninf : forall (n : nat) (i : Z) (s : sar_state),
+  rem s = ninf -> is_finite (ref s) = true -> 0 <= B2R (ref s) ->
+  acc (sar_loop bits n i s) = acc s.
+Proof.
+  induction n as [|n IH]; intros i s Hr Ff Pf; [reflexivity|].
+  cbn [sar_loop]. destruct (half_ref (ref s) Ff Pf) as [Fh Ph].
+  assert (Hit : bge (rem s) (ref s) = false).
+  { rewrite Hr. unfold bge, ble. destruct (ref s); try discriminate; reflexivity. }
+  rewrite IH; unfold sar_step; rewrite Hit; cbn [acc rem ref]; auto.
+Qed.
+
+Lemma sar_loop_pinf : forall (n : nat) (i : Z) (s : sar_state),
+  (0 <= i)%Z -> (i + Z.of_nat n <= bits)%Z ->
+  rem s = pinf -> is_finite (ref s) = true -> 0 <= B2R (ref s) ->
+  (acc (sar_loop bits n i s) + 2 ^ (bits - (i + Z.of_nat n)) = acc s + 2 ^ (bits - i))%Z.
+Proof.
+  induction n as [|n IH]; intros i s Hi Hn Hr Ff Pf.
+  - cbn [sar_loop]. rewrite Z.add_0_r. reflexivity.
+  - cbn [sar_loop]. destruct (half_ref (ref s) Ff Pf) as [Fh Ph].
+    assert (Hit : bge (rem s) (ref s) = true).
+    { rewrite Hr. unfold bge, ble. destruct (ref s); try discriminate; reflexivity. }
+    assert (Hsub : bsub pinf (ref s) = pinf) by (destruct (ref s); try discriminate; reflexivity).
+    assert (Hi' : (i < bits)%Z) by lia.
+    replace (i + Z.of_nat (S n))%Z with (i + 1 + Z.of_nat n)%Z by lia.
+    rewrite IH; try lia; unfold sar_step; rewrite Hit; cbn [acc rem ref]; auto.
+    + unfold digital_value. rewrite (pow_split bits i Hi Hi'). lia.
+    + rewrite Hr. exact Hsub.
+Qed.
+
+Theorem sar_acc_ninf (vmax : b64) :
+  is_finite vmax = true -> 0 <= B2R vmax -> sar_acc bits vmax ninf = 0%Z.
+Proof.
+  intros Fv Pv. unfold sar_acc. destruct (half_ref vmax Fv Pv) as [Fh Ph].
+  rewrite sar_loop_ninf; auto.
+Qed.
+
+Theorem sar_acc_pinf (vmax : b64) :
+  is_finite vmax = true -> 0 <= B2R vmax -> sar_acc bits vmax pinf = (2 ^ bits - 1)%Z.
+Proof.
+  intros Fv Pv. unfold sar_acc. destruct (half_ref vmax Fv Pv) as [Fh Ph].
+  generalize (sar_loop_pinf (Z.to_nat bits) 0 {| acc := 0; rem := pinf; ref := bdiv vmax (bofZ 2) |}
+                ltac:(lia) ltac:(lia) eq_refl Fh Ph).
+  cbn [acc]. replace (bits - (0 + Z.of_nat (Z.to_nat bits)))%Z with 0%Z by lia.
+  rewrite Z.sub_0_r. change (2 ^ 0)%Z with 1%Z. lia.
+Qed.
+
+(* monotone over all non-NaN voltages, infinities included *)
+Theorem sar_acc_monotone_ext (vmax x y : b64) :
+  is_finite vmax = true -> 0 <= B2R vmax ->
+  bis_nan x = false -> bis_nan y = false -> ble x y = true ->
+  (sar_acc bits vmax x <= sar_acc bits vmax y)%Z.
+Proof.
+  intros Fv Pv Nx Ny Hxy.
+  pose proof (sar_acc_range bits vmax x Hb) as Rx. pose proof (sar_acc_range bits vmax y Hb) as Ry.
+  destruct x as [sx|[|]| |sx mx ex Bx]; try discriminate Nx;
+  destruct y as [sy|[|]| |sy my ey By]; try discriminate Ny.
+  all: try (apply sar_acc_monotone; auto; reflexivity).
+  all: try (change (B754_infinity true) with ninf; rewrite (sar_acc_ninf vmax Fv Pv); lia).
+  all: try (change (B754_infinity false) with pinf; rewrite (sar_acc_pinf vmax Fv Pv); lia).
+  all: exfalso; revert Hxy; unfold ble; simpl; try destruct sx; try destruct sy; discriminate.
+Qed.
+
+End SarInf.
